@@ -142,7 +142,7 @@ def des_decrypt_block(key8, block8):
     return _des_int(int.from_bytes(block8, 'big'), des_key_schedule(bytes(key8))[::-1]).to_bytes(8, 'big')
 
 
-def _tdes_keys(key):
+def tdes_key_bundle(key):
     key = bytes(key)
     if len(key) == 8:
         return key, key, key
@@ -155,7 +155,7 @@ def _tdes_keys(key):
 
 def tdes_encrypt_block(key, block8):
     """TDEA: E_K3(D_K2(E_K1(block)))"""
-    k1, k2, k3 = _tdes_keys(key)
+    k1, k2, k3 = tdes_key_bundle(key)
     x = _des_int(int.from_bytes(block8, 'big'), des_key_schedule(k1))
     x = _des_int(x, des_key_schedule(k2)[::-1])
     return _des_int(x, des_key_schedule(k3)).to_bytes(8, 'big')
@@ -163,7 +163,7 @@ def tdes_encrypt_block(key, block8):
 
 def tdes_decrypt_block(key, block8):
     """TDEA inverse: D_K1(E_K2(D_K3(block)))"""
-    k1, k2, k3 = _tdes_keys(key)
+    k1, k2, k3 = tdes_key_bundle(key)
     x = _des_int(int.from_bytes(block8, 'big'), des_key_schedule(k3)[::-1])
     x = _des_int(x, des_key_schedule(k2))
     return _des_int(x, des_key_schedule(k1)[::-1]).to_bytes(8, 'big')
@@ -908,23 +908,32 @@ def judge(case, io, mo):
             bad('f4-draw-raises', 'format 4 block without a supplied fill raised %s' % io['err'])
         else:
             d = [int(x) for x in case['draws']]
-            want = [hb(ref_block4(case['pin'], d[0]))] * 2 + [hb(ref_block4(case['pin'], d[1])), hb(ref_block4(case['pin'], d[2]))]
-            if io['counts'] != [1, 1, 2, 3, 3]:
-                bad('f4-draw-count', 'draws after (construct, to_bytes twice, construct again, from_bytes, to_bytes) = %s, expected '
-                    '[1, 1, 2, 3, 3]' % io['counts'])
-            elif [x[0] for x in io['log']] != [64, 64, 64]:
+            pin = case['pin']
+            zero_used = case.get('rv') is not None and io['counts'] == [0, 0, 0, 1, 1]
+            if zero_used:
+                # a given fill of 0 is outside the property (fills 1..2^64-1): the code draws instead; using the 0 would be as good
+                want = [hb(ref_block4(pin, 0))] * 3 + [hb(ref_block4(pin, d[0]))]
+                ndraws = 1
+            else:
+                want = [hb(ref_block4(pin, d[0]))] * 2 + [hb(ref_block4(pin, d[1])), hb(ref_block4(pin, d[2]))]
+                ndraws = 3
+                if io['counts'] != [1, 1, 2, 3, 3]:
+                    bad('f4-draw-count', 'draws after (construct, to_bytes twice, construct again, from_bytes, to_bytes) = %s, expected '
+                        '[1, 1, 2, 3, 3]' % io['counts'])
+            if not ps and io['log'] != [[64, str(v)] for v in d[:ndraws]]:
                 bad('f4-draw-bits', 'random source asked for %s bits, expected 64 each time' % [x[0] for x in io['log']])
             if io['blocks'][0] != io['blocks'][1]:
                 bad('f4-block-changes-between-calls', 'to_bytes() twice on one object: %s then %s' % tuple(io['blocks'][:2]))
             if io['blocks'] != want:
                 bad('f4-drawn-fill-misplaced', 'blocks %s, expected (4, length, PIN, A fill) followed by the values drawn: %s' % (io['blocks'], want))
-            if io['pin'] != hs(case['pin']):
+            if io['pin'] != hs(pin):
                 bad('f4-rebuilt-pin-differs', 'PIN rebuilt from the block bytes differs')
-            sv = spec_value(m.get('spec2'))
-            if sv is not None and 'OK ' + io['blocks'][3] != sv:
-                bad('f4-block-differs-from-coq-spec', 'format 4 block with drawn fill: got %s, extracted specification %s' % (io['blocks'][3], sv))
-            model('to0', 'OK ' + io['blocks'][0], 'pin4_to')
-            model('to1', 'OK ' + io['blocks'][2], 'pin4_to')
+            if not zero_used:
+                sv = spec_value(m.get('spec2'))
+                if sv is not None and 'OK ' + io['blocks'][3] != sv:
+                    bad('f4-block-differs-from-coq-spec', 'format 4 block with drawn fill: got %s, extracted specification %s' % (io['blocks'][3], sv))
+                model('to0', 'OK ' + io['blocks'][0], 'pin4_to')
+                model('to1', 'OK ' + io['blocks'][2], 'pin4_to')
             model('from', 'OK ' + io['pin'], 'pin4_from')
     elif k == 'f4real':
         if 'err' in io:
